@@ -111,3 +111,20 @@ mod tests {
         assert_eq!(mapper, other);
     }
 }
+
+/// Verification hooks (never compiled without `--cfg daachorse_verif`).
+#[cfg(daachorse_verif)]
+impl CodeMapper {
+    #[doc(hidden)]
+    pub fn verif_from_raw(table: Vec<u32>, alphabet_size: u32) -> Self {
+        Self {
+            table,
+            alphabet_size,
+        }
+    }
+
+    #[doc(hidden)]
+    pub fn verif_raw(&self) -> (&[u32], u32) {
+        (&self.table, self.alphabet_size)
+    }
+}
